@@ -1,4 +1,5 @@
 use wasm_bindgen::JsCast;
+#[cfg_attr(leptos_verif, allow(unused_imports))]
 use web_sys::{Document, HtmlElement, Window};
 
 thread_local! {
@@ -22,8 +23,16 @@ pub fn window() -> Window {
 ///
 /// ## Panics
 /// Panics if called outside a browser environment.
+#[cfg(not(leptos_verif))]
 pub fn document() -> Document {
     DOCUMENT.with(Clone::clone)
+}
+
+/// Returns the native in-memory document (`<html><head></head><body></body></html>`, created
+/// on first use), which offers the subset of the `web_sys::Document` API used by `leptos_meta`.
+#[cfg(leptos_verif)]
+pub fn document() -> crate::renderer::native_dom::Document {
+    crate::renderer::native_dom::document()
 }
 
 /// The `<body>` element.
@@ -31,8 +40,15 @@ pub fn document() -> Document {
 /// ## Panics
 /// Panics if there is no `<body>` in the current document, or if it is called outside a browser
 /// environment.
+#[cfg(not(leptos_verif))]
 pub fn body() -> HtmlElement {
     document().body().unwrap()
+}
+
+/// The `<body>` element of the native in-memory DOM (created on first use).
+#[cfg(leptos_verif)]
+pub fn body() -> crate::renderer::types::Element {
+    crate::renderer::native_dom::body()
 }
 
 /// Helper function to extract [`Event.target`](https://developer.mozilla.org/en-US/docs/Web/API/Event/target)
